@@ -37,6 +37,17 @@ pub struct WorldCfg {
     /// One world in `big_dim_one_in` gets 22..=48 ids per side (sorting and permutation code
     /// behaves differently on longer id lists); 0 = never.
     pub big_dim_one_in: u64,
+    /// One bigram world in `big_costs_one_in` gets per-template costs of several thousand whose
+    /// signs alternate by blocks of eight template positions: partial sums leave the 16-bit range
+    /// and later positions cancel them (0 = never; only C07 has the exact oracle for them).
+    pub big_costs_one_in: u64,
+    /// One world in `huge_dim_one_in` gets 182..=300 ids per side: more than 32768 matrix cells,
+    /// files of hundreds of kilobytes (0 = never).
+    pub huge_dim_one_in: u64,
+    /// One world in `extreme_ids_one_in` has the largest id a lexicon can name (65535) on one side:
+    /// 65535 bigram rows (65536 ids incl. BOS/EOS; now and then one fewer), or the 65535 ids that
+    /// the 16-bit header of matrix.def allows; the other side stays small (0 = never).
+    pub extreme_ids_one_in: u64,
 }
 
 impl Default for WorldCfg {
@@ -48,6 +59,9 @@ impl Default for WorldCfg {
             max_lex: 30,
             max_dim: 6,
             big_dim_one_in: 10,
+            big_costs_one_in: 0,
+            huge_dim_one_in: 0,
+            extreme_ids_one_in: 0,
         }
     }
 }
@@ -322,9 +336,22 @@ pub struct BigramModel {
     pub cost: String,
 }
 
-pub fn gen_bigram(rng: &mut Rng, k: usize, num_right: usize, num_left: usize) -> BigramModel {
+pub fn gen_bigram(rng: &mut Rng, k: usize, num_right: usize, num_left: usize, big: bool) -> BigramModel {
+    // ordinary costs stay within [-300, 300]: every partial sum fits 16 bits
+    let cost_at = |rng: &mut Rng, p: usize| -> i64 {
+        if big {
+            let m = rng.range(5000, 16000);
+            if ((p / 8) % 2 == 0) != rng.chance(1, 6) {
+                m
+            } else {
+                -m
+            }
+        } else {
+            rng.range(-300, 300)
+        }
+    };
     // vocabularies: a few strings per position, some shared across positions and sides
-    let shared = ["S", "名", "x y", "q,c", "d\"q"];
+    let shared = ["S", "名", "x y", "q,c", "d\"q", " lead", "trail ", "\"q"];
     let mut vocab_r: Vec<Vec<String>> = vec![];
     let mut vocab_l: Vec<Vec<String>> = vec![];
     for p in 0..k {
@@ -350,8 +377,16 @@ pub fn gen_bigram(rng: &mut Rng, k: usize, num_right: usize, num_left: usize) ->
         // ragged: sometimes fewer than k columns (but at least one)
         let cols = if rng.chance(1, 5) { 1 + rng.usize(k) } else { k };
         let mut fs = vec![];
-        for v in vocab.iter().take(cols) {
-            if rng.chance(1, 6) {
+        // now and then a whole aligned block of 8 positions (or more) has no feature at all,
+        // followed by positions that do
+        let star_block = if cols > 8 && rng.chance(1, 8) {
+            let start = 8 * rng.usize(cols / 8);
+            Some(start..start + 8 * (1 + rng.usize(2)))
+        } else {
+            None
+        };
+        for (i, v) in vocab.iter().take(cols).enumerate() {
+            if star_block.as_ref().is_some_and(|b| b.contains(&i)) || rng.chance(1, 6) {
                 fs.push("*".to_string());
             } else {
                 fs.push(csv_quote(rng.pick(v.as_slice()).as_str()));
@@ -386,7 +421,7 @@ pub fn gen_bigram(rng: &mut Rng, k: usize, num_right: usize, num_left: usize) ->
                     continue;
                 }
                 if (dense || rng.chance(1, 2)) && seen.insert((rf.clone(), lf.clone())) {
-                    cost.push_str(&format!("{rf}/{lf}\t{}\n", rng.range(-300, 300)));
+                    cost.push_str(&format!("{rf}/{lf}\t{}\n", cost_at(rng, p)));
                 }
             }
         }
@@ -394,13 +429,13 @@ pub fn gen_bigram(rng: &mut Rng, k: usize, num_right: usize, num_left: usize) ->
             // BOS on the right side: "/lf"
             let lf = rng.pick(&vocab_l[p]).clone();
             if seen.insert((String::new(), lf.clone())) {
-                cost.push_str(&format!("/{lf}\t{}\n", rng.range(-300, 300)));
+                cost.push_str(&format!("/{lf}\t{}\n", cost_at(rng, p)));
             }
         }
         if rng.chance(1, 3) {
             let rf = rng.pick(&vocab_r[p]).clone();
             if seen.insert((rf.clone(), String::new())) {
-                cost.push_str(&format!("{rf}/\t{}\n", rng.range(-300, 300)));
+                cost.push_str(&format!("{rf}/\t{}\n", cost_at(rng, p)));
             }
         }
         if rng.chance(1, 6) {
@@ -418,7 +453,22 @@ pub fn gen_bigram(rng: &mut Rng, k: usize, num_right: usize, num_left: usize) ->
 pub fn gen_world(rng: &mut Rng, plan: &mut Plan, cfg: &WorldCfg) -> WorldInfo {
     let mut r = rng.fork();
     let conn = *r.pick(&cfg.conns);
-    let (num_left, num_right) = if cfg.big_dim_one_in > 0 && r.chance(1, cfg.big_dim_one_in) {
+    let extreme = cfg.extreme_ids_one_in > 0 && r.chance(1, cfg.extreme_ids_one_in);
+    let (num_left, num_right) = if extreme {
+        let big = if conn == CONN_MATRIX {
+            65535
+        } else {
+            *r.pick(&[65536usize, 65536, 65535])
+        };
+        let small = 2 + r.usize(4);
+        if r.chance(1, 2) {
+            (small, big)
+        } else {
+            (big, small)
+        }
+    } else if cfg.huge_dim_one_in > 0 && r.chance(1, cfg.huge_dim_one_in) {
+        (182 + r.usize(119), 182 + r.usize(119))
+    } else if cfg.big_dim_one_in > 0 && r.chance(1, cfg.big_dim_one_in) {
         (22 + r.usize(27), 22 + r.usize(27))
     } else {
         (2 + r.usize(cfg.max_dim - 1), 2 + r.usize(cfg.max_dim - 1))
@@ -426,7 +476,15 @@ pub fn gen_world(rng: &mut Rng, plan: &mut Plan, cfg: &WorldCfg) -> WorldInfo {
     let (char_def, cats) = gen_char_def(&mut rng.fork(), None);
     let unk_def = gen_unk_def(&mut rng.fork(), &cats, num_left, num_right);
     let n_lex = 3 + r.usize(cfg.max_lex - 2);
-    let (rows, surfaces) = gen_lex_rows(&mut rng.fork(), n_lex, num_left, num_right, "W", &[]);
+    let (mut rows, mut surfaces) = gen_lex_rows(&mut rng.fork(), n_lex, num_left, num_right, "W", &[]);
+    if extreme {
+        // words that carry the largest ids of both sides
+        for (i, s) in ["極", "極a"].iter().enumerate() {
+            rows.push(format!("{s},{},{},{},Wmax{i}", num_left - 1, num_right - 1, -200 - i as i64));
+            surfaces.push(s.to_string());
+        }
+        plan.set_param("extreme_ids", 1);
+    }
     let mut lex = rows.join("\n");
     if r.chance(3, 4) {
         lex.push('\n');
@@ -438,8 +496,12 @@ pub fn gen_world(rng: &mut Rng, plan: &mut Plan, cfg: &WorldCfg) -> WorldInfo {
     } else {
         let lo = cfg.min_templates.max(1);
         let k = lo + cr.usize(cfg.max_templates - lo + 1);
+        // 65535 rows: keep the files around a megabyte
+        let k = if extreme { k.min(12) } else { k };
         templates = k;
-        let m = gen_bigram(&mut cr, k, num_right, num_left);
+        let big = cfg.big_costs_one_in > 0 && cr.chance(1, cfg.big_costs_one_in);
+        plan.set_param("big_costs", big as i64);
+        let m = gen_bigram(&mut cr, k, num_right, num_left, big);
         plan.set_file("bigram.right", m.right);
         plan.set_file("bigram.left", m.left);
         plan.set_file("bigram.cost", m.cost);
@@ -449,6 +511,9 @@ pub fn gen_world(rng: &mut Rng, plan: &mut Plan, cfg: &WorldCfg) -> WorldInfo {
     plan.set_file("char.def", char_def);
     plan.set_file("unk.def", unk_def);
     plan.set_param("conn", conn);
+    if num_left * num_right > 32768 {
+        plan.set_param("huge_dims", 1);
+    }
     WorldInfo {
         num_left,
         num_right,
@@ -515,7 +580,7 @@ pub fn gen_probes(rng: &mut Rng, surfaces: &[String], n: usize) -> Vec<String> {
 
 /// A permutation mapping list for ids `1..dim`: item i (1-origin) is the old id that becomes i.
 pub fn gen_perm(rng: &mut Rng, dim: usize) -> Vec<u16> {
-    let mut v: Vec<u16> = (1..dim as u16).collect();
+    let mut v: Vec<u16> = (1..dim).map(|x| x as u16).collect(); // dim may be 65536
     match rng.below(6) {
         0 => {} // identity
         1 if v.len() >= 2 => {
